@@ -47,7 +47,10 @@ void chk_run_case(uint64_t seed, long c, bool is_sweep)
         if (is_sweep) { sweep_case(c); return; }
         snprintf(mode, sizeof mode, "random history");
         EP.p_event_step = 30 + rn(100); EP.p_backpressure = 90; EP.p_hold = 15; EP.p_list = 10; EP.p_toggle = 15;
+        bool mx = chance(15);
+        if (mx) { NEXT_WORLD_USE_MUTEX = true; EP.p_handler_trigger = 0; CNT("histories_with_a_mutex_interface"); }      /* with a (non-recursive) mutex interface: a lock that some call forgets to release makes both queries fail from then on */
         eng_gen_table();
+        NEXT_WORLD_USE_MUTEX = false;
         eng_gen_input(1 + rn(8));
         eng_random_schedules();
         long u0 = ctr_get("busy_samples_with_open_unit"), i0 = ctr_get("is_busy_idle_answers");
